@@ -93,7 +93,7 @@ func VH02a_pair() {
 	verif.Quiesce()
 	verif.Assert(!g.Done(), lab+"/invented-or-duplicated-inbound-message")
 	verif.Reach("inbound-checked")
-	sock.Close()
+	vp.CloseCensus(sock, "C10/pair-pipeline/after-history")
 }
 
 var pushes = []string{"push", "xpush"}
@@ -159,7 +159,7 @@ func VH02b_push() {
 		}
 	}
 	verif.Reach("push-checked")
-	sock.Close()
+	vp.CloseCensus(sock, "C10/pair-pipeline/after-history")
 }
 
 var pulls = []string{"pull", "xpull"}
@@ -204,7 +204,7 @@ func VH02c_pull() {
 	verif.Quiesce()
 	verif.Assert(!g.Done(), lab+"/duplicate-delivery")
 	verif.Reach("pull-checked")
-	sock.Close()
+	vp.CloseCensus(sock, "C10/pair-pipeline/after-history")
 }
 
 // VH02e_second_peer: PAIR has at most one peer; further connections are refused
@@ -233,7 +233,7 @@ func VH02e_second_peer() {
 	verif.Assert(g2.Done() && serr == nil, lab+"/send-to-new-peer")
 	verif.Assert(len(p3.Sent) == 1, lab+"/new-peer-got-no-traffic")
 	verif.Reach("second-peer-checked")
-	sock.Close()
+	vp.CloseCensus(sock, "C10/pair-pipeline/after-history")
 }
 
 // VH02f_dialer_takeover: a PAIR socket with an established peer also dials a
@@ -272,7 +272,7 @@ func VH02f_dialer_takeover() {
 	verif.Assert(g.Done() && serr == nil, lab+"/send-after-takeover")
 	verif.Assert(len(last.Sent) == 1, lab+"/traffic-not-on-the-new-connection")
 	verif.Reach("took-over")
-	sock.Close()
+	vp.CloseCensus(sock, "C10/pair-pipeline/after-history")
 }
 
 // VH02g_concurrent: two application goroutines send concurrently; every
@@ -323,7 +323,7 @@ func VH02g_concurrent() {
 	}
 	verif.Assert(nextA == N && nextB == N, lab+"/message-lost")
 	verif.Reach("concurrent-checked")
-	sock.Close()
+	vp.CloseCensus(sock, "C10/pair-pipeline/after-history")
 }
 
 // VH02h_inflight_loss: a PUSH connection fails while a write on it is in
@@ -384,7 +384,7 @@ func VH02h_inflight_loss() {
 		}
 	}
 	verif.Reach("inflight-checked")
-	sock.Close()
+	vp.CloseCensus(sock, "C10/pair-pipeline/after-history")
 }
 
 // VH02i_idle_loss: an IDLE PUSH connection goes away (any of 2..3 peers, so
@@ -454,7 +454,7 @@ func VH02i_idle_loss() {
 	}
 	verif.Assert(total >= accepted, lab+"/message-lost-although-accepted-after-the-connection-was-detached")
 	verif.Reach("idle-loss-checked")
-	sock.Close()
+	vp.CloseCensus(sock, "C10/pair-pipeline/after-history")
 }
 
 // VH02j_pair_reconnect: the PAIR peer stops reading with one message stuck in
@@ -533,7 +533,7 @@ func VH02j_pair_reconnect() {
 		}
 	}
 	verif.Reach("reconnect-checked")
-	sock.Close()
+	vp.CloseCensus(sock, "C10/pair-pipeline/after-history")
 }
 
 // VH02k_simultaneous_connect: two or three things happen to a PAIR socket at
@@ -637,7 +637,7 @@ func VH02k_simultaneous_connect() {
 	verif.Quiesce()
 	verif.Assert(g2.Done() && serr == nil && len(nw.Sent) == 1, lab+"/new-peer-got-no-traffic")
 	verif.Reach("simultaneous-checked")
-	sock.Close()
+	vp.CloseCensus(sock, "C10/pair-pipeline/after-history")
 }
 
 // VH02l_deadline_race: a deadline runs out at the very moment the call could
@@ -804,7 +804,7 @@ func VH02l_deadline_race() {
 	} else {
 		verif.Reach("send-deadline-won")
 	}
-	sock.Close()
+	vp.CloseCensus(sock, "C10/pair-pipeline/after-history")
 }
 
 // VH02m_push_long: N (12) messages through a PUSH socket with three PULL
@@ -863,5 +863,5 @@ func VH02m_push_long() {
 	}
 	verif.Assert(total == N, lab+"/message-lost-or-duplicated-with-all-connections-up")
 	verif.Reach("push-long-checked")
-	sock.Close()
+	vp.CloseCensus(sock, "C10/pair-pipeline/after-history")
 }
